@@ -28,7 +28,7 @@ ASSUMPTIONS = ["both front ends are driven by the same C++ model code inside eng
 
 
 def budget(tier):
-    return 2000 if tier == "quick" else 100000
+    return 20000 if tier == "quick" else 400000
 
 
 @st.composite
